@@ -28,13 +28,25 @@ def make_tuning(spec, base=None):
 
     if not spec:
         return None
-    cls = type("SimTuning", (base or TransportTuning,), dict(spec))
+    values = {k: v for k, v in spec.items() if not k.startswith("_")}
+    if spec.get("_style") == "instance":
+        # the values live on the object, not on its class (t = TransportTuning(); t.ACK_TIMEOUT = ...)
+        obj = (base or TransportTuning)()
+        for k, v in values.items():
+            setattr(obj, k, v)
+        return obj
+    if spec.get("_style") == "init":
+        def __init__(self):
+            for k, v in values.items():
+                setattr(self, k, v)
+        return type("SimTuning", (base or TransportTuning,), {"__init__": __init__})()
+    cls = type("SimTuning", (base or TransportTuning,), values)
     return cls()
 
 
 def tuning_values(spec):
     d = {"ACK_TIMEOUT": 2.0, "ACK_RANDOM_FACTOR": 1.5, "MAX_RETRANSMIT": 4}
-    d.update(spec or {})
+    d.update({k: v for k, v in (spec or {}).items() if not k.startswith("_")})
     d["MAX_TRANSMIT_WAIT"] = d["ACK_TIMEOUT"] * (2 ** (d["MAX_RETRANSMIT"] + 1) - 1) * d["ACK_RANDOM_FACTOR"]
     return d
 
